@@ -18,9 +18,9 @@ TECHNIQUE = "Lean 4 proof (case analysis + induction over the species list) + di
 DRIVER = "driver_herd"
 LEAN_MODULES = ["AllfedModel.Props.C07"]
 OBLIGATIONS = [
-    "Allfed.C07.C07_no_overuse", "Allfed.C07.C07_no_overdelivery", "Allfed.C07.C07_energy_balance", "Allfed.C07.C07_grass_ruminants_only",
-    "Allfed.C07.C07_fed_count", "Allfed.C07.C07_all_no_overuse", "Allfed.C07.C07_all_each", "Allfed.C07.C07_priority",
-    "Allfed.C07.C07_month_no_overuse", "Allfed.C07.C07_sort_perm", "Allfed.C07.C07_sort_sorted",
+    "Allfed.C07.C07_no_overuse", "Allfed.C07.C07_no_overdelivery", "Allfed.C07.C07_no_overdelivery_06_08", "Allfed.C07.C07_energy_balance",
+    "Allfed.C07.C07_grass_ruminants_only", "Allfed.C07.C07_fed_count", "Allfed.C07.C07_all_each", "Allfed.C07.C07_all_no_overuse",
+    "Allfed.C07.C07_priority", "Allfed.C07.C07_month_no_overuse", "Allfed.C07.C07_sort_perm", "Allfed.C07.C07_sort_sorted",
     "Allfed.C07.C07_fed_count_unfixed_counterexample", "Allfed.C07.C07_starving_unfixed_counterexample",
 ]
 RULE = ("(requirement, grass, feed, herd, ruminant) tuples incl. the boundaries requirement 0, exactly enough grass / feed, one ulp short / over, no supply, "
@@ -117,7 +117,10 @@ def run_direct(ctx, cases):
                 ctx.disagree("feed_the_species:" + k, case, c[k], model[k])
                 break
         for key, what in herd.oracle_feed_call(c, effs=(eg, ef)):
-            ctx.violation("feed_the_species:" + key, what, dict(case, got=c))
+            if key.startswith("near-tie:"):
+                ctx.count(key)
+            else:
+                ctx.violation("feed_the_species:" + key, what, dict(case, got=c))
         branch = "none-needed" if need == 0 else "met" if c["balance"] == 0 else "partial"
         ctx.count("direct:" + branch)
         ctx.count("direct-mode:" + mode)
@@ -198,8 +201,11 @@ def run_lists(ctx, cases):
         if not ok:
             ctx.disagree("feed_animals", case, [(c["grassLeft"], c["feedLeft"], c["balance"], c["fed"]) for c in calls], mouts)
         for c in calls:
-            for key, what in herd.oracle_feed_call(c):
-                ctx.violation("feed_animals/feed_the_species:" + key, what, dict(case, call=c))
+            for key, what in herd.oracle_feed_call(c, supply=(g, f)):
+                if key.startswith("near-tie:"):
+                    ctx.count(key)
+                else:
+                    ctx.violation("feed_animals/feed_the_species:" + key, what, dict(case, call=c))
         for key, what in herd.oracle_feed_month(calls):
             ctx.violation("feed_animals:" + key, what, case)
         if gl > g * (1 + 1e-9) or fl2 > f * (1 + 1e-9) or gl < -1e-9 * g or fl2 < -1e-9 * f:
